@@ -273,7 +273,10 @@ func (f *Formatter) formatIfStatement(stmt *ast.IfStatement) string {
 		// If leading comments exists or AlwaysNextLineElseIf configuration is enabled,
 		// The keyword should be printed on the next line.
 		if len(a.Leading) > 0 || f.conf.AlwaysNextLineElseIf {
-			buf.WriteString("\n")
+			// The line is already broken when the previous block ends with a line comment
+			if !bytes.HasSuffix(buf.Bytes(), []byte("\n")) {
+				buf.WriteString("\n")
+			}
 			buf.WriteString(f.formatComment(a.Leading, "\n", a.Nest))
 			buf.WriteString(f.indent(a.Nest))
 		} else if bytes.HasSuffix(buf.Bytes(), []byte("\n")) {
@@ -328,7 +331,9 @@ func (f *Formatter) formatIfStatement(stmt *ast.IfStatement) string {
 	// else
 	if stmt.Alternative != nil {
 		if len(stmt.Alternative.Leading) > 0 || f.conf.AlwaysNextLineElseIf {
-			buf.WriteString("\n")
+			if !bytes.HasSuffix(buf.Bytes(), []byte("\n")) {
+				buf.WriteString("\n")
+			}
 			buf.WriteString(f.formatComment(stmt.Alternative.Leading, "\n", stmt.Alternative.Nest))
 			buf.WriteString(f.indent(stmt.Alternative.Nest))
 		} else if bytes.HasSuffix(buf.Bytes(), []byte("\n")) {
